@@ -33,8 +33,9 @@ REQUIRED_COUNTERS = ['direct_time.requested', 'direct_time.past_end', 'mps.creat
 
 UTC = datetime.timezone.utc
 TRACKS = {'bbb': [('video', 1), ('audio', 2), ('audio', 3), ('text', 4)],
-          'tears': [('video', 1), ('audio', 2)]}
-SRC_DUR = {'bbb': 40, 'tears': 64}
+          'tears': [('video', 1), ('audio', 2)],
+          'dots': [('video', 1), ('audio', 2)]}       # media file names with dots in them
+SRC_DUR = {'bbb': 40, 'tears': 64, 'dots': 40}
 
 
 def shards(tier: str) -> int:
@@ -49,7 +50,7 @@ def gen_definition(rng, idx: int, spk: dict) -> dict:
     n = rng.choice([1, 2, 2, 3, 4])
     periods = []
     for i in range(n):
-        stream = rng.choice(['bbb', 'tears'])
+        stream = rng.choice(['bbb', 'bbb', 'tears', 'tears', 'dots'])
         total = SRC_DUR[stream]
         start = rng.choice([0, 4, 8, 12, 2, 5.5, 7.9, rng.randrange(0, total - 12)])
         # the API snaps the start to the nearest segment of the timing reference (up to +2 s)
@@ -376,7 +377,8 @@ def run_shard(ctx: ShardCtx) -> ShardResult:
     res = ShardResult()
     env = AppEnv()
     try:
-        spk = {'bbb': env.add_fixture_stream('bbb'), 'tears': env.add_fixture_stream('tears')}
+        spk = {'bbb': env.add_fixture_stream('bbb'), 'tears': env.add_fixture_stream('tears'),
+               'dots': env.add_dotted_names_stream()}
         index = StoredIndex(env)
         reach = Reach([
             ('dashlive.server.requesthandler.manifest_context', 'ManifestContext.create_all_vod_periods'),
